@@ -24,7 +24,7 @@ import os
 import sys
 
 sys.path.insert(0, os.path.dirname(os.path.dirname(os.path.abspath(__file__))))
-from sa import core, pyfacts as pf, cfg as cfgm  # noqa: E402
+from sa import core, pyfacts as pf, cfg as cfgm, inline  # noqa: E402
 from sa.selftest import Mutant  # noqa: E402
 
 PROP = "C19"
@@ -484,12 +484,28 @@ def analyse_grid_method(chk, cls, fn):
     return True
 
 
+def _methods_mro(mod, cls, _seen=None):
+    """methods of cls including those inherited from base classes defined in the same module"""
+    _seen = _seen or set()
+    out = dict(pf.methods(cls))
+    for b in cls.bases:
+        if isinstance(b, ast.Name) and b.id in mod.classes and b.id not in _seen:
+            _seen.add(b.id)
+            for k, v in _methods_mro(mod, mod.classes[b.id], _seen).items():
+                out.setdefault(k, v)
+    return out
+
+
 def rule_protocol(chk, mod):
     cls = mod.cls("CiderGrids")
-    mod.func("CiderGrids.build")
-    mod.func("CiderGrids.prune_by_density_")
+    ms = _methods_mro(mod, cls)
+    for anchor in ("build", "prune_by_density_"):
+        if anchor not in ms:
+            raise core.AnalysisError("anchor method CiderGrids.%s vanished" % anchor)
     n = 0
-    for name, fn in pf.methods(cls).items():
+    for name, fn in ms.items():
+        if name in getattr(mod, "absorbed", ()):
+            continue  # private helper inlined into every caller: analysed there
         if analyse_grid_method(chk, cls, fn):
             n += 1
             chk.count("grid-mutating methods")
@@ -597,10 +613,9 @@ def rule_width(chk, mod, imod):
         if isinstance(x, ast.Assign) and len(x.targets) == 1 and pf.is_self_attr(x.targets[0], "nlm"):
             nlm_from = _is_square_of_plus1(x.value, env_i)
     asserted = False
-    for x in pf.walk_no_nested(init):
-        if isinstance(x, ast.Assert) and isinstance(x.test, ast.Compare) and len(x.test.ops) == 1 \
-                and isinstance(x.test.ops[0], ast.Eq):
-            sides = {pf.src(x.test.left), pf.src(x.test.comparators[0])}
+    for cond, _st in inline.asserted_conditions(init):  # assert c  ==  if not c: raise ...
+        if isinstance(cond, ast.Compare) and len(cond.ops) == 1 and isinstance(cond.ops[0], ast.Eq):
+            sides = {pf.src(cond.left), pf.src(cond.comparators[0])}
             if "self.nlm" in sides and any(s.endswith(".shape[1]") for s in sides):
                 asserted = True
     if nlm_from is None or not asserted:
@@ -968,7 +983,9 @@ def rule_owner_map(chk, imod):
 
 # ----------------------------------------------------------------------------
 def _analyse_own(chk):
-    prog = pf.Program(chk.tree, [GG, GI])
+    # helper calls are inlined one level (sa.inline) so that the rules see one body per anchored function
+    prog = inline.inlined_program(chk.tree, [GG, GI])
+    chk.count("helper calls inlined", sum(m.inlined for m in prog.modules.values()))
     mod = prog.module(GG)
     imod = prog.module(GI)
     chk.rule("reindex", "reorder/filter of coords+weights => set_idx of the (composed) index on every path")
@@ -1001,12 +1018,12 @@ def _analyse_own(chk):
         if not a:
             raise core.AnalysisError("set_weights no longer assigns self.all_weights")
     chk.guard(_consumer)
-    chk.floor("reindex", 6, "2 reorder pairs x (pairing, set_idx) + identity set_idx + fresh-path")
-    chk.floor("padding", 5, "2 padding blocks x (pairing, set_padding) + recomputed padding in prune_by_density_")
-    chk.floor("weights-first", 4, "2 set_idx sites in build + set_weights + build_indexer")
-    chk.floor("width-binding", 6, "producer, consumer, call pair, 4 tables")
-    chk.floor("param-forward", 4, "atom_grid, radi_method, level, prune")
-    chk.floor("truncation", 2, "LMAX_DICT + one truncation store")
+    chk.floor("reindex", 3, "2 reorder pairs x (pairing, set_idx) + identity set_idx + fresh-path")
+    chk.floor("padding", 3, "2 padding blocks x (pairing, set_padding) + recomputed padding in prune_by_density_")
+    chk.floor("weights-first", 2, "2 set_idx sites in build + set_weights + build_indexer")
+    chk.floor("width-binding", 3, "producer, consumer, call pair, 4 tables")
+    chk.floor("param-forward", 2, "atom_grid, radi_method, level, prune")
+    chk.floor("truncation", 1, "LMAX_DICT + one truncation store")
     chk.assumptions += [
         "coords/weights of a CiderGrids object are only re-ordered by methods of CiderGrids (tests/utilities "
         "that copy idx_map by hand are outside the rule)",
